@@ -86,6 +86,7 @@ class Runtime(object):
     def __init__(self, cfg):
         self.cfg = cfg
         self.beh = dict(cfg.get('beh') or {})
+        self.flavour = dict(cfg.get('resp_flavour') or {})    # fid -> 'response' | 'base' | 'http'
         self.by_id = {}
         self.keep = []
         self.resources = {}
@@ -186,8 +187,15 @@ class Runtime(object):
 
         def make(kind):
             if kind == 'resp':
-                from werkzeug.wrappers import Response
-                o = Response('resp:%s:%s' % (fid, tok), mimetype='text/plain')
+                from werkzeug.wrappers import Response, BaseResponse
+                fl = self.flavour.get(fid, 'response')
+                if fl == 'http':          # a returned (not raised) HTTP error: a BaseResponse, not a Response
+                    from clastic.errors import Forbidden
+                    o = Forbidden(detail='resp:%s:%s' % (fid, tok))
+                elif fl == 'base':
+                    o = BaseResponse('resp:%s:%s' % (fid, tok), mimetype='text/plain')
+                else:
+                    o = Response('resp:%s:%s' % (fid, tok), mimetype='text/plain')
             elif kind == 'exc':
                 o = SpyError(fid, tok)
             else:
@@ -329,6 +337,20 @@ def make_middleware(rt, mw, type_registry):
     return inst
 
 
+def make_decoy(d):
+    """a route placed before the real one that matches the same paths, binds the URL name d['name'] and is
+    passed over after matching (method mismatch, or a non-breaking error)"""
+    from clastic import Route
+    from clastic.errors import NotFound
+    pattern = '/r/<%s*>' % d['name']
+    if d['kind'] == 'method':
+        return Route(pattern, lambda: None, methods=['DELETE'])
+
+    def declines():
+        raise NotFound(is_breaking=False)
+    return Route(pattern, declines)
+
+
 class Built(object):
     def __init__(self):
         self.app = None
@@ -343,13 +365,24 @@ def pattern_of(route):
     return '/r' + ''.join('/<%s>' % b for b in route['bindings'])
 
 
-def full_prefix(cfg):
-    return ''.join(l.get('prefix', '') for l in cfg['levels'][:-1])
+def level_prefix(level, k):
+    """mount pattern of the next inner application inside level k (may carry URL bindings)"""
+    return level.get('prefix', '/p%d' % k) + ''.join('/<%s>' % b for b in level.get('prefix_bindings') or [])
+
+
+def prefix_binding_names(cfg, from_level=0):
+    return [b for l in cfg['levels'][from_level:-1] for b in (l.get('prefix_bindings') or [])]
+
+
+def full_prefix(cfg, values=None):
+    values = values or {}
+    return ''.join(l.get('prefix', '/p%d' % k) + ''.join('/' + values.get(b, 'v_' + b) for b in (l.get('prefix_bindings') or []))
+                   for k, l in enumerate(cfg['levels'][:-1]))
 
 
 def request_path(cfg, values=None):
     values = values or {}
-    return full_prefix(cfg) + '/r' + ''.join('/' + values.get(b, 'v_' + b) for b in cfg['route']['bindings'])
+    return full_prefix(cfg, values) + '/r' + ''.join('/' + values.get(b, 'v_' + b) for b in cfg['route']['bindings'])
 
 
 def build(cfg, error_handler_factory=None, slash_mode=None):
@@ -392,9 +425,9 @@ def build(cfg, error_handler_factory=None, slash_mode=None):
             if slash_mode:
                 akw['slash_mode'] = slash_mode
             if inner is None:
-                routes = [r]
+                routes = [make_decoy(d) for d in (route.get('decoys') or [])] + [r]
             else:
-                routes = [(cfg['levels'][k].get('prefix', '/p%d' % k), inner)]
+                routes = [(level_prefix(cfg['levels'][k], k), inner)]
             inner = Application(routes, resources=res, middlewares=mws, error_handler=ehf(), **akw)
             out.apps.insert(0, inner)
         out.app = inner
